@@ -397,9 +397,11 @@ fn run_op(op: &Op) {
                 None => None,
             };
             let r = match h {
-                Some(RHandle::Layer(h)) => h.reload(spec.boxed_layer()),
-                Some(RHandle::Layer2(h)) => h.reload(spec.boxed_layer_on::<L2>()),
-                Some(RHandle::Filt(h)) => h.reload(spec.boxed_filter()),
+                // `reload(v)` is `modify(|o| *o = v)`; the closure parks at this harness' own yield point 83 first, so that a
+                // forced schedule can run other threads while the cell's WRITE lock is held
+                Some(RHandle::Layer(h)) => { let v = spec.boxed_layer(); h.modify(move |o| { yp(83); *o = v; }) }
+                Some(RHandle::Layer2(h)) => { let v = spec.boxed_layer_on::<L2>(); h.modify(move |o| { yp(83); *o = v; }) }
+                Some(RHandle::Filt(h)) => { let v = spec.boxed_filter(); h.modify(move |o| { yp(83); *o = v; }) }
                 None => return,
             };
             match r {
@@ -423,7 +425,7 @@ static SCHED: OnceLock<Sched> = OnceLock::new();
 /// the yield points of the code this harness schedules (callsite.rs, metadata.rs set_max, dispatch.rs set_global_default,
 /// MacroCallsite, reload.rs) = the `yield_id`s of Dispatch/Sched_Model.v; the set is pinned against the sources by
 /// C04_source_points.  Yield points of other subsystems (e.g. 51-56 in the sharded registry, C05's) are not scheduling points here.
-const MODEL_YIELDS: [u32; 23] = [10, 19, 20, 29, 30, 31, 32, 40, 41, 42, 44, 50, 60, 61, 62, 63, 64, 70, 71, 72, 80, 81, 82];
+const MODEL_YIELDS: [u32; 24] = [10, 19, 20, 29, 30, 31, 32, 40, 41, 42, 44, 50, 60, 61, 62, 63, 64, 70, 71, 72, 80, 81, 82, 83];
 
 fn yield_cb(id: u32) {
     if id != 0 && !MODEL_YIELDS.contains(&id) { return; }   // 0 = between operations (this harness' own point)
@@ -752,7 +754,11 @@ fn main() {
             let st = s.m.lock().unwrap().status[t];
             if blocked[t] {
                 if st == Status::Running { ys.push(998); continue; }
-                blocked[t] = false;      // the lock was freed meanwhile; the thread ran on to its next yield point
+                // the lock was freed meanwhile and the thread has run on to its next yield point by itself: this entry accounts for
+                // that step (it is not released again)
+                blocked[t] = false;
+                ys.push(match st { Status::Parked(id) => id, _ => 0 });
+                continue;
             }
             let (can_read, can_write) = lock_probe().unwrap_or((sh_writer.is_none(), sh_writer.is_none() && sh_readers == 0));
             let wants_excl = |t: usize, id: u32| -> bool {
